@@ -51,3 +51,13 @@ check("C03",
       "compared with the real step_next (bash, real robsd-step) on generated files and with real canvas runs SIGKILLed after a generated write and resumed.",
       "Trusted: Lean kernel; bash -O lastpipe for ksh plus the shims of DESIGN 3.4; the slot abstraction of the step file is tied to the CSV by correspondence; sequential modes only.",
       "DESIGN.md#c03")
+
+check("C05",
+      "Lean 4 proof over a model of report.c (decision logic, filter/sections lemmas, suffix lemmas); byte-exact differential run of robsd-report in all five modes",
+      "Proof: Report.generate transcribes report_generate for the five modes. Theorems: status is ok iff no (non-skipped) failing step for sequential histories "
+      "and for regress/canvas, else it names the failing step / the failure count; the sections are exactly the kept rows in step order, every non-skipped "
+      "failing row is kept and no skipped row is; each section carries name, exit, duration and log name; the log tail is a suffix of the log starting at a "
+      "line boundary; sanitising removes every NUL/CR and changes nothing else. The model is compared byte for byte with robsd-report (ASan) on generated "
+      "build directories, and the property is evaluated directly on the real output.",
+      "Trusted: Lean kernel; translator (thresholds, tail length); gethostname and config-derived names are parameters; glibc printf formats; the harness.",
+      "DESIGN.md#c05")
